@@ -4,6 +4,7 @@ package main
 // and replay whatever they report through the ordinary ops, so that the usual predicates — not the fuzzer — decide.
 
 import (
+	"bytes"
 	"encoding/hex"
 	"fmt"
 	"os"
@@ -15,6 +16,32 @@ import (
 )
 
 const fuzzTxDesc = "v=1;lt=20;in=0843dd2020a9419a04ff0486a19f5eb77ea9a9ff89fb26ef912dd0ca6420ba58:1::4294967294:1000:,4dccc76c02a2c239ec3ed4274802edaa04d228329b38d9a61f2f2301a7d78c54:0::5:2000:;out=1234:76a914000000000000000000000000000000000000000088ac"
+
+// fuzzNormFlags keeps the execution target inside the model and inside a time budget: post-Genesis there is no
+// element-size limit and numbers may be 750,000 bytes long, so a program made of "DUP MUL" / "DUP CAT" doubles its operand
+// with every pair (and go-bt's number conversions are quadratic in the length: 17 squarings of a hash take three
+// minutes), and OP_NUM2BIN with a 4-byte size operand is a legitimate gigabyte allocation (both out of model,
+// DESIGN.md 11.5). Post-Genesis programs are therefore either tiny (16 bytes) or short (40 bytes) and free of the three
+// growing opcodes; anything else runs under the pre-Genesis limits.
+func fuzzNormFlags(flags uint64, u, l []byte) uint64 {
+	if flags&(1<<14) == 0 {
+		return flags
+	}
+	n := len(u) + len(l)
+	grows := false
+	for _, op := range []byte{0x7e, 0x80, 0x95} {
+		if bytes.IndexByte(u, op) >= 0 || bytes.IndexByte(l, op) >= 0 {
+			grows = true
+		}
+	}
+	if n <= 16 && !(bytes.IndexByte(u, 0x80) >= 0 || bytes.IndexByte(l, 0x80) >= 0) {
+		return flags
+	}
+	if n <= 40 && !grows {
+		return flags
+	}
+	return flags &^ (1 << 14)
+}
 
 func harnessSrcDir() string {
 	if d := os.Getenv("VERIF_HARNESS_DIR"); d != "" {
@@ -117,9 +144,7 @@ func init() {
 			flags := litUint(v[0])
 			u, l := litBytes(v[1]), litBytes(v[2])
 			kind := litUint(v[3])
-			if flags&(1<<14) != 0 && len(u)+len(l) > 40 {
-				flags &^= 1 << 14
-			}
+			flags = fuzzNormFlags(flags, u, l)
 			e.runIsolated("IX.total", fmt.Sprint(flags), hexE(u), hexE(l), fuzzTxDesc, fmt.Sprint(int(kind>>4)%4-1), "1000", fmt.Sprint(kind%16))
 		})
 	}
